@@ -96,7 +96,7 @@ Proof.
   injection Er as -> ->.
   set (c0 := {| ubuf := bbuf (pbody p); uoff := pbuf_idx p; unfds := bfds (pbody p); udepth := 0 |}) in *.
   assert (Hd0 : udepth c0 + edepth e <= MAX_DEPTH) by (cbn [udepth c0]; lia).
-  destruct (unmarshal_t_sound_spec (bbe (pbody p)) 66 e c0 v c Hwf Hto Hd0 Hb Hoff Eu)
+  destruct (unmarshal_t_sound_spec (bbe (pbody p)) 66 e c0 v c Hwf Hto (DecodeSoundT.typed_depth_ok_sum c0 e Hd0) Hb Hoff Eu)
     as (Hw & _ & Hsl & _ & Hrange & _ & _ & _ & Hm).
   cbn [ubuf uoff c0] in Hsl, Hrange.
   assert (Hlen : len (spec_enc (bbe (pbody p)) (pbuf_idx p) v) = uoff c - pbuf_idx p).
